@@ -336,7 +336,7 @@ static void h_case_begin(void) {
     memset(lk_edge, 0, sizeof(lk_edge)); lk_on = 1;
     h_nallrq = 0; h_nexited = 0;
     h_logpath[0] = 0; h_logpos = 0;
-    verif_conf_file = NULL; verif_conf_loaded = 0; nrx = 0; nrewrite_names = 0; h_nopipe = 0;
+    verif_conf_file = NULL; verif_conf_loaded = 0; nrx = 0; nrewrite_names = 0; h_nopipe = 0; memset(h_cltype, 0, sizeof(h_cltype));
     debug_init("verif");
     debug_set_level(getenv("VERIF_DEBUG") ? atoi(getenv("VERIF_DEBUG")) : 1);
 }
